@@ -32,6 +32,8 @@ struct Saved {
 	mempool: Vec<grin_core::core::Transaction>,
 	n_msgs: usize,
 	now_ms: i64,
+	/// the active account is in-memory state of the open wallet
+	active: String,
 }
 
 pub struct C06 {
@@ -118,6 +120,7 @@ impl C06 {
 			mempool: run.ex.world.chain.node.sh.mempool.lock().unwrap().clone(),
 			n_msgs: run.ex.msgs.len(),
 			now_ms: crate::hooks::now_ms(),
+			active: run.ex.world.snap(w).active,
 		}
 	}
 
@@ -128,7 +131,10 @@ impl C06 {
 		*run.ex.world.chain.node.sh.mempool.lock().unwrap() = s.mempool.clone();
 		run.ex.msgs.truncate(s.n_msgs);
 		crate::hooks::set_now_ms(s.now_ms);
-		run.ex.world.open(s.w).map_err(|e| format!("{}", e))
+		run.ex.world.open(s.w).map_err(|e| format!("{}", e))?;
+		let o = run.ex.world.owner(s.w);
+		let m = run.ex.world.mask(s.w);
+		o.set_active_account(m.as_ref(), &s.active).map_err(|e| format!("{}", e))
 	}
 
 	/// The recovery procedure: refresh every account, cancel every pending entry,
